@@ -8,7 +8,7 @@ use crate::model::fmt_spec::Kind;
 use crate::model::instant::*;
 use crate::model::pattern_gen::{self, ValueFacts};
 use astrolabe::{CronSchedule, Date, DateTime, DateUtilities, Offset, OffsetUtilities, Time, TimeUtilities};
-use serde_json::{json, Value};
+use serde_json::json;
 use std::str::FromStr;
 
 const ALPHABET: [&str; 12] = ["0", "1", "9", "-", "+", "a", "Z", ":", "é", "'", " ", "."];
